@@ -9,6 +9,7 @@ import PygProofs.Lemmas.TreeLemmas
 import PygProofs.Lemmas.TreeMerge
 import PygProofs.Lemmas.TreeHeapLemmas
 import PygProofs.Lemmas.TreeHeapAbs
+import PygProofs.Lemmas.TreeTableLemmas
 
 namespace Pyg.Props.C15
 open Pyg Pyg.Tree Pyg.DA Pyg.TreeHeap
@@ -21,6 +22,106 @@ theorem keys_values_of_items (t : Val) :
 /-- `tree_getitem(t, path)` returns the leaf for every listed path (distinct keys per branch) -/
 theorem getitem_paths (t : Val) (h : wf t = true) (p : Path) (v : Val) (hm : (p, v) ∈ items t) :
     getItem t p = .ok v := getItem_items t h p v hm
+
+/-- ... also on a tree of `dictattr` / `Dict` nodes, whose item access falls back to dotted paths for MISSING keys: whenever
+the plain walk finds a value (in particular for every listed path) the class-aware walk finds the same one -/
+theorem getitem_dotted_of_getitem (b : Bool) : ∀ (p : Path) (t : Val) (v : Val), getItem t p = .ok v →
+    getItemC b t p = .ok v
+  | [], t, v, h => by cases t <;> simpa [getItem, getItemC] using h
+  | k :: rest, .dict kvs, v, h => by
+      simp only [getItem] at h
+      simp only [getItemC]
+      cases hl : lookup k kvs with
+      | none => simp [hl, throw, throwThe, MonadExceptOf.throw] at h
+      | some w => simp only [hl] at h ⊢; exact getitem_dotted_of_getitem b rest w v h
+  | k :: rest, .cell _, v, h => by simp [getItem, throw, throwThe, MonadExceptOf.throw] at h
+  | k :: rest, .list _, v, h => by simp [getItem, throw, throwThe, MonadExceptOf.throw] at h
+  | k :: rest, .tuple _, v, h => by simp [getItem, throw, throwThe, MonadExceptOf.throw] at h
+
+theorem getitem_paths_any_class (b : Bool) (t : Val) (h : wf t = true) (p : Path) (v : Val) (hm : (p, v) ∈ items t) :
+    getItemC b t p = .ok v := getitem_dotted_of_getitem b p t v (getitem_paths t h p v hm)
+
+/-- for plain dicts the class-aware walk IS the plain walk -/
+theorem getitem_plain : ∀ (p : Path) (t : Val), getItemC false t p = getItem t p
+  | [], t => by cases t <;> rfl
+  | k :: rest, .dict kvs => by
+      simp only [getItemC, getItem, Bool.false_and, Bool.false_eq_true, if_false]
+      cases lookup k kvs with
+      | none => rfl
+      | some w => exact getitem_plain rest w
+  | k :: rest, .cell _ => rfl
+  | k :: rest, .list _ => rfl
+  | k :: rest, .tuple _ => rfl
+
+/-- `tree_get(t, path, default)` is `tree_getitem` with the default in place of every error -/
+theorem tree_get_spec (d : Val) : ∀ (p : Path) (t : Val),
+    treeGet t p d = match getItem t p with
+      | .ok v => v
+      | .error _ => d
+  | [], t => by cases t <;> rfl
+  | k :: rest, .dict kvs => by
+      simp only [treeGet, getItem]
+      cases lookup k kvs with
+      | none => rfl
+      | some w => exact tree_get_spec d rest w
+  | k :: rest, .cell _ => rfl
+  | k :: rest, .list _ => rfl
+  | k :: rest, .tuple _ => rfl
+
+/-- `tree_setitem(t, path, v)`: `ValueError` for an empty path, otherwise the path write `setKVs` — read back by
+`setitem_get`, framed by `setitem_frame` / `setitem_frame_deep` -/
+theorem tree_setitem_spec (kvs : List (String × Val)) (p : Path) (v : Val) (ig : List Val) :
+    treeSetItem kvs p v ig = if p = [] then .error .value else .ok (setKVs kvs p v ig) := by
+  cases p <;> simp [treeSetItem, throw, throwThe, MonadExceptOf.throw, pure, Except.pure]
+
+/-- FRAME at any depth: a path write changes nothing that can be read through a path `q` branching off `p` (some position
+holds different keys): every value of the tree outside the written path, at every depth, reads back as before -/
+theorem setitem_frame_deep (v : Val) (ig : List Val) : ∀ (p q : Path) (kvs : List (String × Val)) (w : Val),
+    (∃ i, i < p.length ∧ i < q.length ∧ p[i]? ≠ q[i]? ∧ p.take i = q.take i) →
+    getItem (.dict kvs) q = .ok w → getItem (.dict (setKVs kvs p v ig)) q = .ok w
+  | [], q, kvs, w, h, _ => by obtain ⟨i, hi, _⟩ := h; simp at hi
+  | k :: rest, [], kvs, w, h, _ => by obtain ⟨i, _, hi, _⟩ := h; simp at hi
+  | k :: rest, j :: qs, kvs, w, h, hr => by
+      obtain ⟨i, hip, hiq, hne, htk⟩ := h
+      by_cases e : j = k
+      · subst e
+        -- same head: the difference is further down
+        cases i with
+        | zero => simp at hne
+        | succ i =>
+          simp only [List.length_cons, Nat.add_lt_add_iff_right] at hip hiq
+          simp only [List.getElem?_cons_succ, List.take_succ_cons, List.cons.injEq, true_and] at hne htk
+          cases rest with
+          | nil => simp at hip
+          | cons k2 r2 =>
+            rw [setKVs_deep]
+            simp only [getItem, lookup_set, if_true]
+            simp only [getItem] at hr
+            cases hl : lookup j kvs with
+            | none => simp [hl, throw, throwThe, MonadExceptOf.throw] at hr
+            | some old =>
+              simp only [hl] at hr
+              cases old with
+              | dict s =>
+                have : subOf j kvs = s := by simp [subOf, hl]
+                rw [this]
+                exact setitem_frame_deep v ig (k2 :: r2) qs s w ⟨i, hip, hiq, hne, htk⟩ hr
+              | _ => cases qs with
+                | nil => simp at hiq
+                | cons q1 qr => simp [getItem, throw, throwThe, MonadExceptOf.throw] at hr
+      · have hj : (k :: rest).head? ≠ some j := by simp [Ne.symm e]
+        simp only [getItem, lookup_setKVs_other (k :: rest) kvs v ig j hj]
+        simpa [getItem] using hr
+
+/-- the branching hypothesis is satisfiable: `a.b` and `a.c` part at position 1; writing `a.b` keeps `a.c` -/
+example : ∃ i, i < ["a", "b"].length ∧ i < ["a", "c"].length ∧ ["a", "b"][i]? ≠ ["a", "c"][i]? ∧
+    ["a", "b"].take i = ["a", "c"].take i := ⟨1, by decide, by decide, by decide, by decide⟩
+example : getItem (.dict (setKVs [("a", .dict [("c", .cell (.int 1))])] ["a", "b"] (.cell (.int 2)) [])) ["a", "c"] =
+    .ok (.cell (.int 1)) := rfl
+-- the dotted fallback only matters for unlisted paths: `tree_getitem(dictattr(a = dictattr(b = 1)), ['a.b'])` is 1, a dict
+-- raises KeyError
+#guard (match getItemC true (.dict [("a", .dict [("b", .cell (.int 1))])]) ["a.b"] with | .ok (.cell (.int 1)) => true | _ => false)
+#guard (match getItemC false (.dict [("a", .dict [("b", .cell (.int 1))])]) ["a.b"] with | .error .key => true | _ => false)
 
 /-- path insertion creating branches on demand: what is written at a path is read back there … -/
 theorem setitem_get (kvs : List (String × Val)) (p : Path) (v : Val) (hp : p ≠ []) :
@@ -282,5 +383,78 @@ example : (update t0 u0 []).toOption = some (.dict [("a", .dict [("b", i 1), ("z
 example : (update t0 t0 []).toOption = some t0 := by decide
 example : (update t0 (.dict [("c", .cell .none), ("d", .cell .none)]) [.cell .none]).toOption =
     some (.dict [("a", .dict [("b", i 1), ("z", .dict [("q", i 5)])]), ("c", i 3), ("d", .cell .none)]) := by decide
+
+/-! ### table_to_tree / tree_to_table (partial) -/
+
+section table
+open Pyg.TreeTable
+
+/-- `table_tree_inverse_partial` — the COMPLETENESS half of "table_to_tree and tree_to_table with the same pattern are
+inverse on rows with unique paths", for EVERY pattern (literal and wildcard segments, at least two segments) and every
+table: if the rows bind the pattern (`rowItem` succeeds: `its` are the items `(path, leaf)` written for the rows), the paths
+are distinct and the leaves are not dicts, then `table_to_tree(None, P, rows)` returns a tree `t` in which every row's
+leaf is read back at the row's path (`tree_getitem`), and `tree_to_table(t, P)` contains, for every row, the row made of
+its item (`rowOf`: every wildcard bound to the key at its position / to the leaf).
+MISSING for the full inverse (hence `_partial`): that `tree_to_table(t, P)` contains NOTHING ELSE and each row once
+(soundness / multiplicities), and that `rowOf P (rowItem P row)` equals `row` on the names of `P` when the names are
+distinct.  Both are sampled by the implementation-level law `law-table-tree-*` and the `totable` / `totree` correspondence. -/
+theorem table_tree_inverse_partial (P : List Seg) (rows : List Row) (its : List (Path × Val))
+    (h2 : 2 ≤ P.length)
+    (hits : rows.mapM (rowItem P) = .ok its)
+    (hnd : (its.map (·.1)).Nodup)
+    (hleaf : ∀ pv ∈ its, ∀ s, pv.2 ≠ .dict s) :
+    ∃ t, toTree P rows = .ok t ∧
+      (∀ pv ∈ its, getItem (.dict t) pv.1 = .ok pv.2) ∧
+      ∀ pv ∈ its, ∀ r, rowOf P pv.1 pv.2 = some r → r ∈ toTable P (.dict t) := by
+  -- every item comes from a row: its path has `P.length - 1 ≥ 1` keys
+  have hlen : ∀ pv ∈ its, pv.1.length + 1 = P.length := by
+    intro pv hm
+    have key : ∀ (rows : List Row) (its : List (Path × Val)), rows.mapM (rowItem P) = .ok its →
+        ∀ pv ∈ its, ∃ row, rowItem P row = .ok pv := by
+      intro rows
+      induction rows with
+      | nil => intro its h pv hm; simp [pure, Except.pure] at h; subst h; simp at hm
+      | cons row rows ih =>
+        intro its h pv hm
+        simp only [List.mapM_cons, bind, Except.bind] at h
+        cases hx : rowItem P row with
+        | error e => simp [hx] at h
+        | ok x =>
+          simp only [hx] at h
+          cases hr : rows.mapM (rowItem P) with
+          | error e => simp [hr] at h
+          | ok its' =>
+            simp only [hr, pure, Except.pure, Except.ok.injEq] at h
+            subst h
+            rcases List.mem_cons.1 hm with rfl | hm
+            · exact ⟨row, hx⟩
+            · exact ih its' hr pv hm
+    obtain ⟨row, hrow⟩ := key rows its hits pv hm
+    exact rowItem_length P row pv hrow
+  have hne : ∀ pv ∈ its, pv.1 ≠ [] := by
+    intro pv hm e
+    have := hlen pv hm
+    rw [e] at this
+    simp at this; omega
+  have hbr : (its.map (·.1)).Pairwise Branch := by
+    refine List.Pairwise.imp_of_mem ?_ hnd
+    intro p q hp hq hpq
+    obtain ⟨x, hx, rfl⟩ := List.mem_map.1 hp
+    obtain ⟨y, hy, rfl⟩ := List.mem_map.1 hq
+    exact branch_of_ne _ _ (by have := hlen x hx; have := hlen y hy; omega) hpq
+  refine ⟨buildOn [] its, toTree_eq_buildOn P rows its [] hits hne, ?_, ?_⟩
+  · exact buildOn_reads_back its [] hbr hne
+  · intro pv hm r hr
+    exact toTable_complete P pv.1 _ pv.2 r (hleaf pv hm) hr (buildOn_reads_back its [] hbr hne pv hm)
+
+/-- non-vacuity: `'markets/%market/weight/%weight'` with two rows -/
+private def exP : List Seg := [.lit "markets", .wild "market", .lit "weight", .wild "weight"]
+private def exRows : List Row :=
+  [[("market", .cell (.str "TY")), ("weight", .cell (.int 3))], [("weight", .cell (.int 7)), ("market", .cell (.str "ES"))]]
+example : exRows.mapM (rowItem exP) = .ok [(["markets", "TY", "weight"], .cell (.int 3)), (["markets", "ES", "weight"], .cell (.int 7))] := rfl
+example : rowOf exP ["markets", "ES", "weight"] (.cell (.int 7)) = some [("weight", .cell (.int 7)), ("market", .cell (.str "ES"))] := rfl
+example : toTree exP exRows = .ok [("markets", .dict [("TY", .dict [("weight", .cell (.int 3))]), ("ES", .dict [("weight", .cell (.int 7))])])] := rfl
+
+end table
 
 end Pyg.Props.C15
